@@ -291,7 +291,7 @@ def io_listnc(c, a):
         esz = NC_SIZE[ty.value]
         b = CBuf(prod(shape) * esz)
         if L.H4_ncvarget(nc, v, (c_long * nd.value)(*([0] * nd.value)), (c_long * nd.value)(*shape), b.ptr) != -1:
-            cands = [t for t in TY if struct.calcsize("=" + TY[t][1]) == esz and ((t in ("f32", "f64")) == (ty.value in (5, 6)))]
+            cands = [t for t in TY if struct.calcsize("=" + TY[t][1]) == esz and ((t in ("f32", "f64", "lf32", "lf64")) == (ty.value in (5, 6)))]
             # (the class does not name the type: a short payload can be the formula's under several types;
             #  every reading is listed and the judged listing keeps the one the specification speaks of)
             for t in cands:
